@@ -1,45 +1,40 @@
 """C17 - the data logger loses, duplicates and reorders nothing; files complete after stop.
 
-proof:          coq/logger  Props/C17.v (current code: C17_refuted / C17_partial + format theorems),
-                            Props/C17Fixed.v (repaired hand-off: C17_fixed_holds, all schedules)
-translator:     vlib/gen_logger.py -> coq/logger/Gen/LoggerConsts.v (constants, header layouts)
+proof:          coq/logger  Props/C17.v: C17_holds - the full statement for every configuration, every recorder program,
+                            EVERY schedule, any number of steps, over Model/LoggerFixed.v = the CURRENT hand-off (since
+                            510a13f); C17_token; format theorems.  (Props/C17Before.v: the racy hand-off of the code
+                            before 510a13f, historical - compiled and audited, nothing of it is claimed.)
+translator:     vlib/gen_logger.py -> coq/logger/Gen/LoggerConsts.v: constants, header layouts and, fail-closed, the SHAPE
+                of the hand-off in data_collection.py (set() in __init__, the write_finished gate in update(), the
+                unconditional wait in stop(), stage/clear/set in trigger_write, clear-before-set in write()).
 correspondence: the REAL DataCollection / DataSet / formatters under a cooperative deterministic scheduler
-                (vlib/logger_worker.py) vs Model/Logger.v evaluated by vm_compute on the same program and schedule:
+                (vlib/logger_worker.py) vs Model/LoggerFixed.v evaluated by vm_compute on the same program and schedule:
                 per data set and sub-file the message ids written, warnings, exceptions, the executed thread trace,
-                and the stale flag; on a subset also the file BYTES vs Model/Formats.v `render` and the reader models.
-spec oracle:    on the real files only: exactly the selected arrivals, once, in order, contents equal.
+                the stale flag; on a subset also the file BYTES vs Model/Formats.v `render` and the reader models.
+spec oracle:    on the real files only: exactly the selected arrivals, once, in order, contents equal.  No suppression:
+                a loss / writer crash (the defect fixed by 510a13f, known_findings.d/logger.txt `fixed:` lines) is a
+                VIOLATION again if it ever returns.
 """
 from __future__ import annotations
 
 import json
 import random
-import shutil
-import subprocess
-import tempfile
-from pathlib import Path
 from typing import Dict, List, Optional, Tuple
 
-from ..framework import Check, VERIF, SRC, coq_zlist
-from ..logger_common import (FAM, ALL_TYPES, HEADER, run_impl, explore, oracle, coq_case, coq_cfgs, coq_prog, coq_sched,
+from ..framework import Check, coq_zlist
+from ..logger_common import (FAM, ALL_TYPES, HEADER, run_impl, explore_many, oracle, coq_case, coq_cfgs, coq_prog, coq_sched,
                              impl_flat, selected)
 from .. import gen_logger
 
-THEOREMS = ["C17_gen_consts", "C17_refuted", "C17_refuted_crash", "C17_witnesses_are_stale", "C17_partial",
-            "C17_partial_run", "C17_sequential_handoff", "C17_partial_nonvacuous", "C17_sequential_nonvacuous", "C17_raw_file", "C17_json_file", "C17_ql_file",
-            "C17_ql_file_single_write", "C17_ql_file_multi_write", "C17_partial_files"]
-THEOREMS_FIXED = ["C17_fixed_holds", "C17_fixed_token", "C17_fixed_on_witness"]
-FIX = VERIF / "fixes" / "C17_stale_write_finished.diff"
-KEY = "stale-write-finished"
-
-# the same observable layout for the repaired model
-HEADER_FIXED = HEADER.replace("Model.Logger.", "Model.Logger Model.LoggerFixed.") \
-    .replace("let s := run cfgs prog sched in", "let s := runF cfgs prog sched in") \
-    .replace("(trace cfgs prog sched)", "(traceF cfgs prog sched)")
+THEOREMS = ["C17_gen_consts", "C17_holds", "C17_holds_run", "C17_token", "C17_nonvacuous", "C17_on_old_witness",
+            "C17_raw_file", "C17_json_file", "C17_ql_file", "C17_ql_file_single_write", "C17_ql_file_multi_write",
+            "C17_files"]
+KEY = "stale-write-finished"     # the class fixed by 510a13f; only used to NAME a failure, never to suppress it
 
 # byte-level: model with full messages; expected = per data set, per file: the bytes on disk and the ids the package's
 # reader returned
 HEADER_BYTES = """From Coq Require Import ZArith List Bool.
-From Logr Require Import Gen.LoggerConsts Model.Formats Model.Logger.
+From Logr Require Import Gen.LoggerConsts Model.Formats Model.Logger Model.LoggerFixed.
 Import ListNotations. Open Scope Z_scope.
 Fixpoint zl_eqb (a b : list Z) : bool :=
   match a, b with [], [] => true | x :: r, y :: s => (x =? y) && zl_eqb r s | _, _ => false end.
@@ -62,7 +57,7 @@ Fixpoint check_all (ds : list dstate) (exp : list (list (list Z * list Z))) : bo
   match ds, exp with [], [] => true | d :: r, e :: s => check_ds d e && check_all r s | _, _ => false end.
 Definition check_case (c : list cfg * list op * list tid * list (list (list Z * list Z))) : bool :=
   let '(cfgs, prog, sched, exp) := c in
-  let s := run cfgs prog sched in
+  let s := runF cfgs prog sched in
   negb (crashed s) && finished s && check_all (s_ds s) exp.
 """
 
@@ -190,20 +185,6 @@ def coq_case_bytes(case: dict, res: dict) -> str:
             f"[{'; '.join(exp)}])")
 
 
-# ---- the proposed fix, validated on a patched copy (informative) ----------------------------------------------------
-
-def patched_copy() -> Optional[Path]:
-    if not FIX.exists():
-        return None
-    tmp = Path(tempfile.mkdtemp(prefix="vlogfix_"))
-    shutil.copytree(SRC, tmp / "src", ignore=shutil.ignore_patterns("__pycache__"))
-    p = subprocess.run(["patch", "-p1", "-s", "-i", str(FIX)], cwd=tmp, capture_output=True, text=True)
-    if p.returncode != 0:
-        shutil.rmtree(tmp, ignore_errors=True)
-        return None
-    return tmp
-
-
 # ---- the check ----------------------------------------------------------------------------------------------------------
 
 def classify(case: dict, res: dict) -> Optional[Tuple[str, str]]:
@@ -224,11 +205,10 @@ def run(chk: Check):
         chk.broken_obligation(f"translator failed closed for Gen/{f}", e)
     if errs:
         return
-    chk.prove(FAM, "Props.C17", THEOREMS, extra_targets=["Props/C17Fixed.vo"])
-    chk.prove(FAM, "Props.C17Fixed", THEOREMS_FIXED)
-    chk.cov["checker_cmd"] = "cd coq/logger && make Props/C17.vo Props/C17Fixed.vo  (coqc 8.16.1, full .vo)"
+    chk.prove(FAM, "Props.C17", THEOREMS, extra_targets=["Props/C17Before.vo"])
+    chk.cov["checker_cmd"] = "cd coq/logger && make Props/C17.vo Props/C17Before.vo  (coqc 8.16.1, full .vo)"
     if thorough:
-        for mod in ("Props.C17", "Props.C17Fixed"):
+        for mod in ("Props.C17",):
             okc, outc = FAM.coqchk(mod)
             if not okc:
                 chk.broken_obligation(f"coqchk rejected {mod}", outc[-600:])
@@ -258,33 +238,40 @@ def run(chk: Check):
     frs = run_impl(fcs)
     add("fixed", [dict(c, sched=r["trace"]) for c, r in zip(fcs, frs)], frs)
 
-    # (2) exhaustive schedules: <= 3 updates, one flush, one stop (complete); two flushes (budgeted prefix)
-    exh_complete = True
+    # (2) exhaustive schedules (complete trees): <= 3 updates with one flush and one stop; two flushes incl. the program
+    #     whose schedules lost a message / crashed the writer before 510a13f; restart; two data sets
     one_flush = [
         [["start"], ["tick", 16], ["upd", 1, 1001], ["upd", 2, 1002], ["upd", 3, 1001], ["stop"]],
         [["start"], ["upd", 1, 1001], ["tick", 16], ["upd", 2, 1003], ["upd", 3, 1004], ["stop"]],
         [["start"], ["upd", 1, 1002], ["upd", 2, 1001], ["tick", 16], ["upd", 3, 1001], ["stop"]],
     ]
+    bases1 = []
     for f in FMTS:
         for k, prog in enumerate(one_flush):
-            if not thorough and k != FMTS.index(f):
-                continue
-            cs, rs, comp = explore(dict(datasets=[ds("d0", f, 30 if k == 1 else 0)], prog=prog, bytes=False), 4000)
-            exh_complete = exh_complete and comp
-            add("exhaustive-one-flush", cs, rs)
-    cs, rs, comp = explore(dict(datasets=[ds("d0", "raw", 30), ds("d1", "quicklogger", 0, [1001])],
-                                prog=[["start"], ["tick", 31], ["upd", 1, 1001], ["upd", 2, 1002], ["stop"]], bytes=False), 6000)
-    exh_complete = exh_complete and comp
-    add("exhaustive-one-flush", cs, rs)
+            bases1.append(dict(datasets=[ds("d0", f, 30 if k == 1 else 0)], prog=prog, bytes=False))
+    bases1.append(dict(datasets=[ds("d0", "raw", 30), ds("d1", "quicklogger", 0, [1001])],
+                       prog=[["start"], ["tick", 31], ["upd", 1, 1001], ["upd", 2, 1002], ["stop"]], bytes=False))
     two_flush = [
         ("raw", 0, [["start"], ["tick", 16], ["upd", 1, 1001], ["tick", 16], ["upd", 2, 1001], ["upd", 3, 1001], ["stop"]]),
         ("quicklogger", 30, [["start"], ["upd", 1, 1001], ["tick", 31], ["upd", 2, 1002], ["tick", 16], ["upd", 3, 1001], ["stop"]]),
         ("json", 0, [["start"], ["tick", 16], ["upd", 1, 1001], ["tick", 16], ["upd", 2, 1003], ["stop"], ["start"], ["upd", 3, 1001],
                      ["tick", 16], ["upd", 4, 1001], ["stop"]]),
     ]
-    for f, iv, prog in two_flush:
-        cs, rs, comp = explore(dict(datasets=[ds("d0", f, iv)], prog=prog, bytes=False), 20000 if thorough else 1500)
-        add("budgeted-two-flush", cs, rs)
+    bases2 = [dict(datasets=[ds("d0", f, iv)], prog=prog, bytes=False) for f, iv, prog in two_flush]
+    if thorough:
+        bases2.append(dict(datasets=[ds("d0", "quicklogger", 0), ds("d1", "json", 30, [1001])],
+                           prog=[["start"], ["tick", 16], ["upd", 1, 1001], ["tick", 16], ["upd", 2, 1001], ["upd", 3, 1002],
+                                 ["stop"]], bytes=False))
+        bases2.append(dict(datasets=[ds("d0", "raw", 30)],
+                           prog=[["start"], ["tick", 16], ["upd", 1, 1001], ["tick", 16], ["upd", 2, 1001], ["tick", 16],
+                                 ["upd", 3, 1001], ["stop"]], bytes=False))
+    ex = explore_many(bases1 + bases2, 80000 if thorough else 12000)
+    exh_complete = all(x[2] for x in ex[:len(bases1)])
+    two_complete = all(x[2] for x in ex[len(bases1):])
+    for x in ex[:len(bases1)]:
+        add("exhaustive-one-flush", x[0], x[1])
+    for x in ex[len(bases1):]:
+        add("exhaustive-two-flush", x[0], x[1])
 
     # (3) seeded random programs (length <= 10), data sets and schedules
     nrand = 4000 if thorough else 700
@@ -346,7 +333,7 @@ def run(chk: Check):
         (len(bc_ok) - len([b for b in bad_b if b >= 0]))
     chk.cov["distinct_nontrivial"] = len(nontrivial)
     chk.cov["rule"] = ("recorder program + data-set configs + schedule run on the real DataCollection under the cooperative "
-                       "scheduler and on Model/Logger.v (vm_compute); compared: per data set and sub-file (session, sub index, "
+                       "scheduler and on Model/LoggerFixed.v (vm_compute); compared: per data set and sub-file (session, sub index, "
                        "message ids), warning count, exception (which thread), executed thread trace, stale flag; byte cases: "
                        "file bytes vs Formats.render and model readers on the real bytes; non-trivial = >=5 writer steps, >=4 "
                        "thread switches and >=2 recorded messages (distinct by configs+program+trace)")
@@ -359,9 +346,13 @@ def run(chk: Check):
     dist["max_trace_len"] = max(len(r["trace"]) for r in results)
     dist["formats"] = {f: sum(1 for c in cases for d in c["datasets"] if d["fmt"] == f) for f in FMTS}
     chk.cov["input_distribution"] = dist
-    chk.cov["exhaustive"] = bool(exh_complete)
-    chk.cov["exhaustive_scope"] = ("all schedules (at switch-point granularity) of the one-flush programs listed in "
-                                   "vlib/props/C17.py; two-flush programs: breadth-first prefix of the schedule tree")
+    chk.cov["exhaustive"] = bool(exh_complete and two_complete)
+    chk.cov["exhaustive_scope"] = ("all schedules (at switch-point granularity) of the one-flush and two-flush programs "
+                                   "listed in vlib/props/C17.py (incl. the program and schedules that lost a message / "
+                                   "crashed the writer before 510a13f); one_flush_complete=%s two_flush_complete=%s"
+                                   % (exh_complete, two_complete))
+    if not (exh_complete and two_complete):
+        chk.note("schedule tree exploration hit its budget: not exhaustive this run")
     chk.add_samples([dict(datasets=cases[i]["datasets"], prog=cases[i]["prog"], trace="".join(map(str, results[i]["trace"])),
                           observed=impl_flat(cases[i], results[i]), stale=results[i].get("stale"))
                      for i in (0, len(cases) // 3, len(cases) // 2, len(cases) - 1)])
@@ -376,14 +367,14 @@ def run(chk: Check):
         "file system durability, DataSetExistsError (fresh directories are used), Uint32 overflow of quicklogger header "
         "counters (>4 GiB files) are not modelled; JSON line -> message decoding is C10's subject (checked here on the real "
         "files by Message.from_json equality only)",
-        "C17_partial excludes exactly the runs in which the writer executes write_finished.set() after the recorder's "
-        "write_finished.clear() of a newer trigger_write (ghost flag g_stale; recomputed independently from the real run "
-        "by the harness and compared)",
+        "the hand-off shape modelled by Model/LoggerFixed.v is located in data_collection.py by the translator on every run "
+        "(fail closed); the stale write_finished.set() of the code before 510a13f is proved impossible (C17_token) and "
+        "recomputed independently from every real run by the harness (must be false)",
     ]
 
     for b in bad[:3]:
         if b >= 0:
-            chk.broken_obligation("correspondence Model/Logger.v vs DataCollection differs",
+            chk.broken_obligation("correspondence Model/LoggerFixed.v vs DataCollection differs",
                                   f"tag={tags[b]} case={coq_cases[b][:700]} crash={results[b].get('crash')}")
         else:
             chk.broken_obligation("correspondence shard failed to evaluate", log[-600:])
@@ -394,41 +385,6 @@ def run(chk: Check):
                                   json.dumps(dict(datasets=c["datasets"], prog=c["prog"], trace=r["trace"]))[:600])
         else:
             chk.broken_obligation("byte-level shard failed to evaluate", log_b[-600:])
-
-    # (5) the proposed repair on a patched copy: model LoggerFixed vs patched code, oracle must be silent (informative)
-    fixinfo: dict = dict(patch=str(FIX.relative_to(VERIF)), applied=False)
-    tmp = patched_copy()
-    if tmp is not None:
-        try:
-            fixinfo["applied"] = True
-            pc: List[dict] = []
-            pr: List[dict] = []
-            complete_all = True
-            for f, iv, prog in two_flush[: (3 if thorough else 2)]:
-                cs, rs, comp = explore(dict(datasets=[ds("d0", f, iv)], prog=prog, bytes=False), 30000 if thorough else 2600,
-                                       src=str(tmp / "src"))
-                complete_all = complete_all and comp
-                pc += cs
-                pr += rs
-            rc2 = [dict(c, sched=r["trace"]) for c, r in zip(rcs[:300], rrs[:300])]
-            rr2 = run_impl(rc2, src=str(tmp / "src"))
-            pc += [dict(c, sched=r["trace"]) for c, r in zip(rc2, rr2)]
-            pr += rr2
-            fails = [oracle(c, r) for c, r in zip(pc, pr)]
-            nf = sum(1 for x in fails if x)
-            badf, logf = FAM.eval_cases(HEADER_FIXED, [coq_case(c, r) for c, r in zip(pc, pr)], per_file=250, tag="f")
-            fixinfo.update(runs=len(pc), exhaustive_two_flush_complete=complete_all, oracle_failures=nf,
-                           stale_runs=sum(1 for r in pr if r.get("stale")),
-                           model_mismatches=len(badf))
-            chk.note(f"proposed fix on a patched copy: {len(pc)} runs (two-flush schedule trees complete={complete_all}), "
-                     f"oracle failures={nf}, LoggerFixed model mismatches={len(badf)}")
-            if nf or badf:
-                chk.note("NOTE: the proposed fix does not validate on this tree: " + str([x for x in fails if x][:2]) + logf[-300:])
-        finally:
-            shutil.rmtree(tmp, ignore_errors=True)
-    else:
-        chk.note("proposed fix not validated: patch missing or does not apply to the current tree")
-    chk.cov["fix_validation"] = fixinfo
 
 
 def replay(path: str) -> int:
